@@ -106,6 +106,38 @@ Theorem C08_system_sound_fix :
 Proof. exact fix_system_sound. Qed.
 Print Assumptions C08_system_sound_fix.
 
+(** ** [Fix2] = [Fix] + patches/0008 (writer: no alias line for an array) and patches/0009 (reader:
+    uext/sext take a bit-vector operand whatever the amount), prepared but not applied in /repo.
+    The rejection statement then covers EVERY violation the interpreter reports under a name of its
+    own: [strict_err2] = [strict_err] plus [B2ExtArray].  (The two remaining error classes,
+    [B2Unsupported] and [B2Syntax], are about operators outside the supported set and the lenient
+    number syntax of the reader; they are not violations of the sort discipline.) *)
+Theorem C08_rejects_ill_formed_fix2 :
+  forall ls sy ren rho e,
+    env_wf rho ->
+    parse_raw_v Fix2 true ls = POk (sy, ren) ->
+    sem_run (induced_sys rho sy) ls = B2Err e -> strict_err2 e = false.
+Proof. exact fix2_rejects_ill_formed. Qed.
+Print Assumptions C08_rejects_ill_formed_fix2.
+
+Theorem C08_system_sound_fix2 :
+  forall ls sy ren rho S,
+    env_wf rho ->
+    parse_raw_v Fix2 true ls = POk (sy, ren) ->
+    sem_run (induced_sys rho sy) ls = B2Ok S -> sys_agrees rho sy S.
+Proof. exact fix2_system_sound. Qed.
+Print Assumptions C08_system_sound_fix2.
+
+(** the accepted witness for [B2ExtArray] is accepted by [Cur] and [Fix] and rejected by [Fix2];
+    an alias of a bit-vector node is still accepted *)
+Example C08_ext_array_witness :
+  let w := text_of ["1 sort bitvec 2"; "2 sort bitvec 4"; "3 sort array 1 2"; "4 input 3 m"; "5 uext 3 4 0"; "6 input 1 i"; "7 read 2 5 6"; "8 output 7"]%string in
+  let a := text_of ["1 sort bitvec 2"; "2 state 1 s"; "3 output 2 o"; "4 uext 1 2 0 s"]%string in
+  (match parse_text_v Cur true w, parse_text_v Fix true w, parse_text_v Fix2 true w, parse_text_v Fix2 false w with
+   | POk _, POk _, PErr, PErr => true | _, _, _, _ => false end) = true /\
+  (match parse_text_v Fix2 true a with POk _ => true | _ => false end) = true.
+Proof. vm_compute. split; reflexivity. Qed.
+
 (** Non-vacuity: the example text of Props/C18.v (array state initialised from a bit-vector,
     negated operands, slice, extension, 129-bit negative decimal constant, signed/unsigned
     comparisons) is accepted by the reader and by the reference interpreter under the valuation
